@@ -89,3 +89,20 @@ package bitswap
 //@   ensures err == nil && old(rangeEmpty(rndb.Container)) ==> rndb.ID.RangeNamespaceDataID.To <= (len(old(root.RowRoots))/2) * (len(old(root.RowRoots))/2)
 //@   ensures root.RowRoots == old(root.RowRoots)
 //@   checks err == nil && old(rangeEmpty(rndb.Container)) ==> len(rndb.Container.Shares) == to.Row - from.Row + 1 && from.Row * odsSize + from.Col == rndb.ID.RangeNamespaceDataID.From && to.Row * odsSize + to.Col == rndb.ID.RangeNamespaceDataID.To - 1
+
+// ---------------------------------------------------------------------------------------------
+// C06: "a retrieval ends with a result or an error - never a panic - with every block store a node type
+// wires the getter to". The sampling getter asks Fetch to keep every block it received (WithStore): the
+// store handed to it on a bridge node is this read-only view over the EDS store.
+//@ func (*Blockstore).Put
+//@   property C06
+//@   nopanic
+//@   ensures result != nil
+//@ func (*Blockstore).PutMany
+//@   property C06
+//@   nopanic
+//@   ensures result != nil
+//@ func (*fetchOptions).store
+//@   property C06
+//@   nopanic
+//@   requires options != nil
